@@ -18,8 +18,12 @@ namespace Sess
 @[simp] theorem upd_ctr (S : St) (n : Nat) (f : Rec → Rec) : (S.upd n f).ctr = S.ctr := rfl
 @[simp] theorem upd_ids (S : St) (n : Nat) (f : Rec → Rec) : (S.upd n f).ids = S.ids := rfl
 
-@[simp] theorem s_mk (a : Tbl Rec) (b c : Tbl (Option Nat)) (d : Tbl Bool) (e : Nat) (f : List Nat) (m : Nat) :
-    (St.mk a b c d e f).s m = a.get m := rfl
+@[simp] theorem upd_vis (S : St) (n : Nat) (f : Rec → Rec) : (S.upd n f).vis = S.vis := rfl
+@[simp] theorem upd_nat (S : St) (n : Nat) (f : Rec → Rec) : (S.upd n f).nat = S.nat := rfl
+
+@[simp] theorem s_mk (a : Tbl Rec) (b c : Tbl (Option Nat)) (d : Tbl Bool) (e : Nat) (f : List Nat)
+    (g h : Tbl (Option Nat)) (m : Nat) :
+    (St.mk a b c d e f g h).s m = a.get m := rfl
 @[simp] theorem sess_get (S : St) (m : Nat) : S.sess.get m = S.s m := rfl
 @[simp] theorem upd_sess (S : St) (n : Nat) (f : Rec → Rec) :
     (S.upd n f).sess = S.sess.set n (f (S.s n)) := rfl
@@ -151,10 +155,13 @@ theorem ninv_step {S S' : St} {l : Label} (hI : NInv S) (h : step S l = some S')
       · cases h; exact hI
       · cases h; nauto n q
     · cases h
-  | regRun n q ok =>
+  | regRun n q k ok =>
     simp only [step] at h
     split at h
-    · cases h; cases ok <;> nauto n q
+    · cases k <;> dsimp only at h
+      · cases h; cases ok <;> nauto n q
+      · split at h <;> (cases h; nauto n q)
+      · split at h <;> (cases h; nauto n q)
     · cases h
   | regAdd n q =>
     simp only [step] at h
@@ -180,6 +187,180 @@ theorem ninv_step {S S' : St} {l : Label} (hI : NInv S) (h : step S l = some S')
     split at h
     · cases h; nauto n q
     · cases h
+
+/-! ### rendez-vous bundle: who stands in the visitor-listener / nat-hole-client tables -/
+
+/-- session record `x` has an OPEN proxy object named `p`: `Run` has succeeded and `Close` has not been called
+    (in flight between Run and the own-table insert, or in `ctl.proxies` and not yet visited by CloseProxy / the teardown) -/
+def ObjOpen (x : Rec) (p : Nat) : Prop :=
+  x.hp = .ran p ∨ x.hp = .added p ∨
+    (p ∈ x.own ∧ x.hp ≠ .closing p ∧ x.phase.live = true ∧ (x.phase = .drained → p ∈ x.todo))
+
+/-- pointwise: record `x` of session `m`, name `p`, `v = vis p`, `w = nat p` -/
+def VGood (x : Rec) (m p : Nat) (v w : Option Nat) : Prop :=
+  (v = some m ↔ p ∈ x.vres) ∧ (w = some m ↔ p ∈ x.nres) ∧
+  (p ∈ x.vres → ObjOpen x p) ∧ (p ∈ x.nres → ObjOpen x p)
+
+def VInv (S : St) : Prop := ∀ m p, VGood (S.s m) m p (S.vis.get p) (S.nat.get p)
+
+@[simp] theorem get_init_vis (p : Nat) : init.vis.get p = none := rfl
+@[simp] theorem get_init_nat (p : Nat) : init.nat.get p = none := rfl
+
+theorem vinv_init : VInv init := by
+  intro m p
+  simp [VGood]
+
+syntax "vauto " term:max term:max : tactic
+macro_rules
+  | `(tactic| vauto $n $q) => `(tactic| (
+      intro m p
+      have h1 := ‹VInv _› m p
+      have h2 := ‹VInv _› $n p
+      have h3 := ‹VInv _› m $q
+      have h4 := ‹VInv _› $n $q
+      have g1 := ‹NInv _› m p
+      have g4 := ‹NInv _› $n $q
+      simp only [VGood, ObjOpen, NGood, relVis, relNat] at h1 h2 h3 h4 g1 g4 ⊢
+      by_cases hm : m = $n <;> by_cases hp : p = $q <;>
+        simp_all [Phase.started, Phase.live] <;> grind))
+
+syntax "vauto0 " term:max : tactic
+macro_rules
+  | `(tactic| vauto0 $n) => `(tactic| (
+      intro m p
+      have h1 := ‹VInv _› m p
+      have h2 := ‹VInv _› $n p
+      have g1 := ‹NInv _› m p
+      have g2 := ‹NInv _› $n p
+      simp only [VGood, ObjOpen, NGood] at h1 h2 g1 g2 ⊢
+      by_cases hm : m = $n <;> simp_all [Phase.started, Phase.live] <;> grind))
+
+theorem vinv_login {S S' : St} {n r fresh : _} (hN : NInv S) (hI : VInv S) (h : step S (.login n r fresh) = some S') : VInv S' := by
+  simp only [step] at h
+  split at h; · cases h
+  split at h; · cases h
+  split at h; · cases h
+  cases h
+  vauto0 n
+
+theorem vinv_add {S S' : St} {n : _} (hN : NInv S) (hI : VInv S) (h : step S (.add n) = some S') : VInv S' := by
+  simp only [step] at h
+  split at h; · cases h
+  cases h
+  vauto0 n
+
+theorem vinv_waitOld {S S' : St} {n : _} (hN : NInv S) (hI : VInv S) (h : step S (.waitOld n) = some S') : VInv S' := by
+  simp only [step] at h
+  split at h; · cases h
+  split at h
+  · cases h; vauto0 n
+  · cases h
+
+theorem vinv_start {S S' : St} {n : _} (hN : NInv S) (hI : VInv S) (h : step S (.start n) = some S') : VInv S' := by
+  simp only [step] at h
+  split at h
+  · cases h; vauto0 n
+  · cases h
+
+theorem vinv_connClose {S S' : St} {n : _} (_ : NInv S) (hI : VInv S) (h : step S (.connClose n) = some S') : VInv S' := by
+  simp only [step] at h
+  split at h; · cases h
+  cases h
+  exact hI
+
+theorem vinv_dispDone {S S' : St} {n : _} (hN : NInv S) (hI : VInv S) (h : step S (.dispDone n) = some S') : VInv S' := by
+  simp only [step] at h
+  split at h
+  · cases h; vauto0 n
+  · cases h
+
+theorem vinv_drain {S S' : St} {n : _} (hN : NInv S) (hI : VInv S) (h : step S (.drain n) = some S') : VInv S' := by
+  simp only [step] at h
+  split at h
+  · cases h; vauto0 n
+  · cases h
+
+theorem vinv_closeProxy {S S' : St} {n q : _} (hN : NInv S) (hI : VInv S) (h : step S (.closeProxy n q) = some S') : VInv S' := by
+  simp only [step] at h
+  split at h
+  · cases h; vauto n q
+  · cases h
+
+theorem vinv_done {S S' : St} {n : _} (hN : NInv S) (hI : VInv S) (h : step S (.done n) = some S') : VInv S' := by
+  simp only [step] at h
+  split at h
+  · cases h; vauto0 n
+  · cases h
+
+theorem vinv_del {S S' : St} {n : _} (hN : NInv S) (hI : VInv S) (h : step S (.del n) = some S') : VInv S' := by
+  simp only [step] at h
+  split at h
+  · cases h; vauto0 n
+  · cases h
+
+theorem vinv_regExist {S S' : St} {n q : _} (hN : NInv S) (hI : VInv S) (h : step S (.regExist n q) = some S') : VInv S' := by
+  simp only [step] at h
+  split at h
+  · split at h
+    · cases h; exact hI
+    · cases h; vauto n q
+  · cases h
+
+theorem vinv_regRun {S S' : St} {n q k ok : _} (hN : NInv S) (hI : VInv S) (h : step S (.regRun n q k ok) = some S') : VInv S' := by
+  simp only [step] at h
+  split at h
+  · cases k <;> dsimp only at h
+    · cases h; cases ok <;> vauto n q
+    · split at h <;> (cases h; vauto n q)
+    · split at h <;> (cases h; vauto n q)
+  · cases h
+
+theorem vinv_regAdd {S S' : St} {n q : _} (hN : NInv S) (hI : VInv S) (h : step S (.regAdd n q) = some S') : VInv S' := by
+  simp only [step] at h
+  split at h
+  · split at h
+    · cases h; vauto n q
+    · cases h; vauto n q
+  · cases h
+
+theorem vinv_regOwn {S S' : St} {n q : _} (hN : NInv S) (hI : VInv S) (h : step S (.regOwn n q) = some S') : VInv S' := by
+  simp only [step] at h
+  split at h
+  · cases h; vauto n q
+  · cases h
+
+theorem vinv_closeReq {S S' : St} {n q : _} (hN : NInv S) (hI : VInv S) (h : step S (.closeReq n q) = some S') : VInv S' := by
+  simp only [step] at h
+  split at h
+  · split at h
+    · cases h; vauto n q
+    · cases h; exact hI
+  · cases h
+
+theorem vinv_closeFin {S S' : St} {n q : _} (hN : NInv S) (hI : VInv S) (h : step S (.closeFin n q) = some S') : VInv S' := by
+  simp only [step] at h
+  split at h
+  · cases h; vauto n q
+  · cases h
+
+theorem vinv_step {S S' : St} {l : Label} (hN : NInv S) (hI : VInv S) (h : step S l = some S') : VInv S' := by
+  cases l with
+  | login n r fresh => exact vinv_login hN hI h
+  | add n => exact vinv_add hN hI h
+  | waitOld n => exact vinv_waitOld hN hI h
+  | start n => exact vinv_start hN hI h
+  | connClose n => exact vinv_connClose hN hI h
+  | dispDone n => exact vinv_dispDone hN hI h
+  | drain n => exact vinv_drain hN hI h
+  | closeProxy n q => exact vinv_closeProxy hN hI h
+  | done n => exact vinv_done hN hI h
+  | del n => exact vinv_del hN hI h
+  | regExist n q => exact vinv_regExist hN hI h
+  | regRun n q k ok => exact vinv_regRun hN hI h
+  | regAdd n q => exact vinv_regAdd hN hI h
+  | regOwn n q => exact vinv_regOwn hN hI h
+  | closeReq n q => exact vinv_closeReq hN hI h
+  | closeFin n q => exact vinv_closeFin hN hI h
 
 /-! ### run-id bundle, part 1: stamps, the table designates the newest, wait-for-old -/
 
@@ -332,10 +513,13 @@ theorem rinv_regExist {S S' : St} {n q : _} (hI : RInv S) (h : step S (.regExist
     · cases h; rsame hI
   · cases h
 
-theorem rinv_regRun {S S' : St} {n q ok : _} (hI : RInv S) (h : step S (.regRun n q ok) = some S') : RInv S' := by
+theorem rinv_regRun {S S' : St} {n q k ok : _} (hI : RInv S) (h : step S (.regRun n q k ok) = some S') : RInv S' := by
   simp only [step] at h
   split at h
-  · cases h; rsame hI
+  · cases k <;> dsimp only at h
+    · cases h; rsame hI
+    · split at h <;> (cases h; rsame hI)
+    · split at h <;> (cases h; rsame hI)
   · cases h
 
 theorem rinv_regAdd {S S' : St} {n q : _} (hI : RInv S) (h : step S (.regAdd n q) = some S') : RInv S' := by
@@ -379,7 +563,7 @@ theorem rinv_step {S S' : St} {l : Label} (hI : RInv S) (h : step S l = some S')
   | done n => exact rinv_done hI h
   | del n => exact rinv_del hI h
   | regExist n q => exact rinv_regExist hI h
-  | regRun n q ok => exact rinv_regRun hI h
+  | regRun n q k ok => exact rinv_regRun hI h
   | regAdd n q => exact rinv_regAdd hI h
   | regOwn n q => exact rinv_regOwn hI h
   | closeReq n q => exact rinv_closeReq hI h
